@@ -1,6 +1,231 @@
-import PhononModel.Model.DynmatToFc
-import PhononModel.Lemmas.Basic
+import PhononModel.Lemmas.Roundtrip
+import PhononModel.Lemmas.CommPoints
+import PhononModel.Lemmas.SymmetrizeCompact
+import Mathlib.Tactic.FinCases
+import Mathlib.Tactic.NormNum
+/-!
+# C06 — force constants ↔ dynamical matrices at commensurate points is lossless
+
+Theorems are about `PhononModel/Model/DynmatToFc.lean`.  The transform theorems hold over every
+ordered field (so ℚ — the driver's scalars — and ℝ), for every number of atoms, every array,
+every unit phase offset `ψ`, every faithful character `ζ` of `ℤ/Nd` and every table set passing
+the executable certificate `Lat.wf` (which `./check C06` evaluates in Lean on the implementation's
+own commensurate points and shortest vectors for every generated case).  The point-set theorems are
+over all integer matrices (Smith-normal-form route: all certified `D, P, Q`).
+-/
+set_option linter.unusedSectionVars false
 namespace PhononModel.C06
-theorem placeholder : (1 : Nat) = 1 := rfl
+open PhononModel Finset
+
+/-! ## commensurate points -/
+
+/-- (1a) Smith-normal-form route: exactly `|det S|` points. -/
+theorem comm_points_card (S : Mat3) (d : P3) (P Q : Mat3) (h : snfWf S d P Q = true) :
+    (commPointsInt d Q).length = (det3 S).natAbs :=
+  commPointsInt_length S d P Q h
+
+/-- (1b) … pairwise distinct modulo `N` (i.e. the points `p/N` are distinct modulo 1). -/
+theorem comm_points_distinct_mod1 (S : Mat3) (d : P3) (P Q : Mat3) (h : snfWf S d P Q = true) :
+    (commPointsInt d Q).Nodup ∧
+      ∀ p ∈ commPointsInt d Q, 0 ≤ p.1 ∧ p.1 < d.1 * d.2.1 * d.2.2 ∧ 0 ≤ p.2.1 ∧ p.2.1 < d.1 * d.2.1 * d.2.2 ∧
+        0 ≤ p.2.2 ∧ p.2.2 < d.1 * d.2.1 * d.2.2 :=
+  ⟨commPointsInt_nodup S d P Q h, commPointsInt_range S d P Q h⟩
+
+/-- (1c) … and `Sᵀ q` is integral for `q = p / N`: `N ∣ (Sᵀ p)_i`. -/
+theorem comm_points_integral (S : Mat3) (d : P3) (P Q : Mat3) (h : snfWf S d P Q = true) :
+    ∀ p ∈ commPointsInt d Q, P3.Dvd (d.1 * d.2.1 * d.2.2) (mulVec S.T p) :=
+  commPointsInt_integral S d P Q h
+
+/-- classic route (`get_commensurate_points`): the returned points are pairwise distinct
+(as numerators in `[0, det S)`, i.e. distinct modulo 1) … -/
+theorem comm_points_classic_distinct_mod1 (S : Mat3) (hS : 0 < det3 S) :
+    (commPointsK S).Nodup ∧ ∀ k ∈ commPointsK S,
+      0 ≤ k.1 ∧ k.1 < det3 S ∧ 0 ≤ k.2.1 ∧ k.2.1 < det3 S ∧ 0 ≤ k.2.2 ∧ k.2.2 < det3 S :=
+  ⟨commPointsK_nodup S, commPointsK_range S hS⟩
+
+/-- … and commensurate: `q S` (= `Sᵀ q`) is integral. -/
+theorem comm_points_classic_integral (S : Mat3) :
+    ∀ k ∈ commPointsK S, P3.Dvd (det3 S) (vecMul k S) :=
+  commPointsK_integral S
+
+/-- the count for the classic route, full statement (frame completeness of the old-style
+supercell builder is not proved; the oracle checks it for every generated matrix) -/
+def FullStatementCommPointsClassicCard : Prop :=
+  ∀ S : Mat3, 0 < det3 S → (commPointsK S).length = (det3 S).natAbs
+
+/-- sub-case proved: diagonal supercell matrices. -/
+theorem comm_points_classic_card_partial (a b c : Int) (ha : 0 < a) (hb : 0 < b) (hc : 0 < c) :
+    (commPointsK (diag3 (a, b, c))).length = (det3 (diag3 (a, b, c))).natAbs :=
+  commPointsK_length_diag a b c ha hb hc
+
+/-- `categorize_commensurate_points`: what the returned lists are (the `assert` is the guard). -/
+theorem categorize_partition_partial (pts : List P3) (ii ij : List Nat) (h : categorize pts = some (ii, ij)) :
+    ii.length + ij.length * 2 = pts.length ∧
+    (∀ i, i ∈ ii ↔ i < pts.length ∧ partner pts (pts.getD i (0, 0, 0)) = some i) ∧
+    (∀ i, i ∈ ij ↔ i < pts.length ∧ ∃ j, partner pts (pts.getD i (0, 0, 0)) = some j ∧ i < j) :=
+  categorize_spec pts ii ij h
+
+/-- full statement: on a duplicate-free list closed under negation modulo `N` the assertion
+never fails. -/
+def FullStatementCategorize : Prop :=
+  ∀ pts : List P3, pts.Nodup →
+    (∀ p ∈ pts, ∃ p' ∈ pts, (p.add p').mod (pts.length : Int) = (0, 0, 0)) →
+    (∀ p ∈ pts, p.mod (pts.length : Int) = p) →
+    ∃ ii ij, categorize pts = some (ii, ij)
+
+/-! ## character orthogonality and the round trips -/
+
+variable {K : Type} [Field K] [LinearOrder K] [IsStrictOrderedRing K]
+variable {np ns N : Nat}
+
+/-- (2) **character orthogonality** over the commensurate points:
+`Σ_q ζ^(κ_q·n) = N·[n orthogonal to every point]`. -/
+theorem char_orthogonality (L : Lat np ns N) (hwf : L.wf = true) (Z : Zeta K L.Nd) (n : P3) :
+    ∑ q, Z.z ((L.kq q).dot n) = if ∀ q, L.Nd ∣ (L.kq q).dot n then (N : Cx K) else 0 :=
+  (L.wf_sound hwf).char_orth Z n
+
+/-- (3) **fc → D(q) at the commensurate points → fc** returns the compact rows, including
+pairs with multiplicity `m > 1` (forward and backward average over the `m` images). -/
+theorem roundtrip_fc (L : Lat np ns N) (hwf : L.wf = true) (hN : 0 < N) (Z : Zeta K L.Nd)
+    (ψ : Fin N → Fin np → Fin np → Cx K) (hψ : ∀ q j i, (ψ q j i).conj * ψ q j i = 1)
+    (mult : Fin ns → Fin np → Nat) (hm : ∀ k i, 0 < mult k i)
+    (ms : Fin np → Fin np → K) (hms : ∀ i j, ms i j ≠ 0) (Φ : CFC np ns K)
+    (hH : ∀ q, IsHermitian (dynmatRaw (cT L) Φ ms (phF L Z ψ mult q))) :
+    dynmatToFc L.s2pp (fun q => dynmat (cT L) Φ ms (phF L Z ψ mult q)) ms (phI L Z ψ mult) = Φ := by
+  have : (fun q => dynmat (cT L) Φ ms (phF L Z ψ mult q)) = fun q => dynmatRaw (cT L) Φ ms (phF L Z ψ mult q) := by
+    funext q; exact hermitize_of_hermitian _ (hH q)
+  rw [this]
+  exact roundtrip_fc_raw (L.wf_sound hwf) hN Z ψ hψ mult hm ms hms Φ
+
+/-- the same without the Hermitisation step, for every array -/
+theorem roundtrip_fc_unhermitised (L : Lat np ns N) (hwf : L.wf = true) (hN : 0 < N) (Z : Zeta K L.Nd)
+    (ψ : Fin N → Fin np → Fin np → Cx K) (hψ : ∀ q j i, (ψ q j i).conj * ψ q j i = 1)
+    (mult : Fin ns → Fin np → Nat) (hm : ∀ k i, 0 < mult k i)
+    (ms : Fin np → Fin np → K) (hms : ∀ i j, ms i j ≠ 0) (Φ : CFC np ns K) :
+    dynmatToFc L.s2pp (fun q => dynmatRaw (cT L) Φ ms (phF L Z ψ mult q)) ms (phI L Z ψ mult) = Φ :=
+  roundtrip_fc_raw (L.wf_sound hwf) hN Z ψ hψ mult hm ms hms Φ
+
+/-- the index maps of the full layout: `p2s_map`, `s2p_map` -/
+def fT {nt : Nat} (T : CTables np ns nt) : FTables np ns ns :=
+  { p2s := T.p2s, s2p := fun k => (T.p2s (T.s2pp k)).1 }
+
+theorem dynmatRaw_full_eq_compact {nt : Nat} (T : CTables np ns nt) (hT : T.wf = true)
+    (L : Lat np ns N) (hs : L.s2pp = T.s2pp) (Φ : FC ns K) (ms : Fin np → Fin np → K) (ph : Phases np ns K) :
+    dynmatRaw (fT T) Φ ms ph = dynmatRaw (cT L) (compress T Φ) ms ph := by
+  have hw := T.wf_sound hT
+  have inj : ∀ j j', T.p2s j = T.p2s j' → j = j' := by
+    intro j j' e
+    have := congrArg T.s2pp e
+    rwa [hw.sp, hw.sp] at this
+  funext i a j b
+  simp only [dynmatRaw, fT, cT, compress, hs, id, Fin.val_inj]
+  have e : ∀ k, (T.p2s (T.s2pp k) = T.p2s j) = (T.s2pp k = j) := by
+    intro k; exact propext ⟨inj _ _, fun e => by rw [e]⟩
+  simp only [e]
+
+/-- (3') full layout: a translation-periodic array is returned by
+forward transform → inverse transform → distribution by translations. -/
+theorem roundtrip_fc_full {nt : Nat} (T : CTables np ns nt) (hT : T.wf = true)
+    (L : Lat np ns N) (hwf : L.wf = true) (hs : L.s2pp = T.s2pp) (hN : 0 < N) (Z : Zeta K L.Nd)
+    (ψ : Fin N → Fin np → Fin np → Cx K) (hψ : ∀ q j i, (ψ q j i).conj * ψ q j i = 1)
+    (mult : Fin ns → Fin np → Nat) (hm : ∀ k i, 0 < mult k i)
+    (ms : Fin np → Fin np → K) (hms : ∀ i j, ms i j ≠ 0) (Φ : FC ns K) (hp : Periodic T Φ)
+    (hH : ∀ q, IsHermitian (dynmatRaw (fT T) Φ ms (phF L Z ψ mult q))) :
+    dynmatToFcFull T (fun q => dynmat (fT T) Φ ms (phF L Z ψ mult q)) ms (phI L Z ψ mult) = Φ := by
+  have e : (fun q => dynmat (fT T) Φ ms (phF L Z ψ mult q))
+      = fun q => dynmatRaw (cT L) (compress T Φ) ms (phF L Z ψ mult q) := by
+    funext q
+    rw [← dynmatRaw_full_eq_compact T hT L hs]
+    exact hermitize_of_hermitian _ (hH q)
+  unfold dynmatToFcFull
+  rw [e, ← hs, roundtrip_fc_raw (L.wf_sound hwf) hN Z ψ hψ mult hm ms hms (compress T Φ)]
+  exact expand_compress (T.wf_sound hT) Φ hp
+
+/-- the Python path computes the same array as the compiled one -/
+theorem py_eq_c (s2pp : Fin ns → Fin np) (D : Fin N → DM np K) (ms : Fin np → Fin np → K)
+    (ph : Fin N → Phases np ns K) : dynmatToFcPy s2pp D ms ph = dynmatToFc s2pp D ms ph := by
+  funext i j a b
+  simp only [dynmatToFcPy, dynmatToFc, sumFin_eq, Finset.sum_mul]
+
+/-- (4) **D(q) → fc → D(q)** at every commensurate point, for Hermitian matrices with the
+time-reversal structure `D(−q) = conj D(q)` (what real force constants produce). -/
+theorem roundtrip_dm (L : Lat np ns N) (hwf : L.wf = true) (hN : 0 < N) (Z : Zeta K L.Nd)
+    (ψ : Fin N → Fin np → Fin np → Cx K) (hψ : ∀ q j i, (ψ q j i).conj * ψ q j i = 1)
+    (hψn : ∀ q q' j i, P3.Dvd L.Nd ((L.kq q).add (L.kq q')) → ψ q' j i = (ψ q j i).conj)
+    (mult : Fin ns → Fin np → Nat) (hm : ∀ k i, 0 < mult k i)
+    (ms : Fin np → Fin np → K) (hms : ∀ i j, ms i j ≠ 0) (D : Fin N → DM np K)
+    (hH : ∀ q, IsHermitian (D q))
+    (hTR : ∀ q q', P3.Dvd L.Nd ((L.kq q).add (L.kq q')) → ∀ i a j b, D q' i a j b = (D q i a j b).conj)
+    (q' : Fin N) :
+    dynmat (cT L) (dynmatToFc L.s2pp D ms (phI L Z ψ mult)) ms (phF L Z ψ mult q') = D q' := by
+  unfold dynmat
+  rw [roundtrip_dm_raw (L.wf_sound hwf) hN Z ψ hψ hψn mult hm ms hms D hTR q']
+  exact hermitize_of_hermitian _ (hH q')
+
+/-- (5) `Phonopy.ph2ph`: the force constants of the target supercell are the inverse transform of
+the source object's dynamical matrices `D` at the target's commensurate points (`L` describes the
+*target* supercell); the new object reproduces `D` at every one of these points — in particular
+at the points commensurate with the original supercell (`emb` is their position in the list). -/
+theorem ph2ph_preserves {N0 : Nat} (emb : Fin N0 → Fin N)
+    (L : Lat np ns N) (hwf : L.wf = true) (hN : 0 < N) (Z : Zeta K L.Nd)
+    (ψ : Fin N → Fin np → Fin np → Cx K) (hψ : ∀ q j i, (ψ q j i).conj * ψ q j i = 1)
+    (hψn : ∀ q q' j i, P3.Dvd L.Nd ((L.kq q).add (L.kq q')) → ψ q' j i = (ψ q j i).conj)
+    (mult : Fin ns → Fin np → Nat) (hm : ∀ k i, 0 < mult k i)
+    (ms : Fin np → Fin np → K) (hms : ∀ i j, ms i j ≠ 0) (D : Fin N → DM np K)
+    (hH : ∀ q, IsHermitian (D q))
+    (hTR : ∀ q q', P3.Dvd L.Nd ((L.kq q).add (L.kq q')) → ∀ i a j b, D q' i a j b = (D q i a j b).conj) :
+    ∀ q0, dynmat (cT L) (dynmatToFc L.s2pp D ms (phI L Z ψ mult)) ms (phF L Z ψ mult (emb q0)) = D (emb q0) :=
+  fun q0 => roundtrip_dm L hwf hN Z ψ hψ hψn mult hm ms hms D hH hTR (emb q0)
+
+/-! ## non-vacuity -/
+
+/-- a faithful character of `ℤ/2` over ℚ: `ζ = −1` -/
+def zeta2 : Zeta ℚ 2 where
+  z := fun t => if t % 2 = 0 then 1 else -1
+  z_add := by
+    intro a b
+    rcases Int.emod_two_eq_zero_or_one a with ha | ha <;> rcases Int.emod_two_eq_zero_or_one b with hb | hb <;>
+      simp [Int.add_emod, ha, hb]
+  z_zero := by simp
+  z_period := by simp
+  z_unit := by
+    intro a
+    rcases Int.emod_two_eq_zero_or_one a with ha | ha <;> simp [ha] <;> ext <;> simp
+  faithful := by
+    intro t h
+    rcases Int.emod_two_eq_zero_or_one t with ht | ht
+    · exact Int.dvd_of_emod_eq_zero ht
+    · simp [ht] at h
+      have := congrArg Cx.re h
+      simp at this
+      norm_num at this
+
+/-- one atom per cell, two cells along `a`: q ∈ {0, 1/2}, lattice vectors 0 and `a`. -/
+def Lex : Lat 1 2 2 where
+  s2pp := fun _ => 0
+  base := fun _ => 0
+  kq := fun q => ((q.1 : Int), 0, 0)
+  R := fun k => ((k.1 : Int), 0, 0)
+  Nd := 2
+
+example : Lex.wf = true := by decide
+
+example : snfWf ((2, 1, 0), (0, 1, 0), (-1, 0, 2)) (1, 1, 4) ((0, 1, 0), (-1, 0, 0), (2, 0, 1))
+    ((0, 0, 1), (1, 0, -1), (0, 1, 2)) = true := by decide
+
 end PhononModel.C06
-#print axioms PhononModel.C06.placeholder
+
+#print axioms PhononModel.C06.comm_points_card
+#print axioms PhononModel.C06.comm_points_distinct_mod1
+#print axioms PhononModel.C06.comm_points_integral
+#print axioms PhononModel.C06.comm_points_classic_distinct_mod1
+#print axioms PhononModel.C06.comm_points_classic_integral
+#print axioms PhononModel.C06.comm_points_classic_card_partial
+#print axioms PhononModel.C06.categorize_partition_partial
+#print axioms PhononModel.C06.char_orthogonality
+#print axioms PhononModel.C06.roundtrip_fc
+#print axioms PhononModel.C06.roundtrip_fc_unhermitised
+#print axioms PhononModel.C06.roundtrip_fc_full
+#print axioms PhononModel.C06.py_eq_c
+#print axioms PhononModel.C06.roundtrip_dm
+#print axioms PhononModel.C06.ph2ph_preserves
